@@ -34,7 +34,32 @@ def enc(v):
     raise TypeError(v)
 
 
+def qenc(cls: str, value: float, unit: str):
+    """a pydsol Quantity (a float subclass): class name, display value, unit"""
+    return {"q": [cls, float(value).hex(), unit]}
+
+
+def _quantity(d):
+    import pydsol.core.units as U          # resolves to the tree under test (common.use_repo_sources)
+    cls, hx, unit = d["q"]
+    return getattr(U, cls)(float.fromhex(hx), unit)
+
+
+def dec_impl(d):
+    """the Python object handed to the implementation"""
+    return _quantity(d) if "q" in d else dec(d)
+
+
+def show(d):
+    if "q" in d:
+        return f"{d['q'][0]}({float.fromhex(d['q'][1])!r}, {d['q'][2]!r})"
+    return repr(dec(d))
+
+
 def dec(d):
+    """the number an argument stands for (a Quantity counts with float(q), its si-value); non-numbers as they are"""
+    if "q" in d:
+        return float(_quantity(d))
     if "b" in d:
         return bool(d["b"])
     if "i" in d:
